@@ -120,6 +120,11 @@ def check(repo, rep, tier):
         where = "%s:%s" % (m.relpath, n.lineno)
         nested = [p for p in parents(n) if isinstance(p, (ast.FunctionDef, ast.For, ast.While, ast.Lambda))]
         arg = n.args[0] if n.args else None
+        if isinstance(arg, ast.Name):
+            # atexit.register(cb) with cb = maybe(final) bound once at module level
+            defs = [s for s in m.tree.body if isinstance(s, ast.Assign) and len(s.targets) == 1 and norm(s.targets[0]) == arg.id]
+            if len(defs) == 1:
+                arg = defs[0].value
         if m.name != RT or nested:
             r1.violation(where, m.name, norm(n), "registration is not a single module-level statement of pysnark.runtime",
                          "register/place")
@@ -149,22 +154,32 @@ def check(repo, rep, tier):
     for idx, s in enumerate(init.node.body):
         if not (isinstance(s, ast.Assign) and len(s.targets) == 1):
             continue
-        vt, ridx = norm(s.value), idx
-        if isinstance(s.value, ast.Name) and s.value.id in reads:
-            vt, ridx = reads[s.value.id]
-        tt = norm(s.targets[0])
-        if isinstance(s.targets[0], ast.Name):
-            reads[tt] = (vt, ridx)
-        elif tt.startswith("self.") and vt in ("sys.exit", "sys.excepthook"):
-            saves.setdefault(vt, (s, ridx))
-        elif tt in ("sys.exit", "sys.excepthook") and vt.startswith("self."):
-            insts.setdefault(tt, (s, idx, vt))
+        # a, b = x, y : both right-hand sides are read before either target is written
+        if isinstance(s.targets[0], (ast.Tuple, ast.List)) and isinstance(s.value, (ast.Tuple, ast.List)) \
+                and len(s.targets[0].elts) == len(s.value.elts):
+            pairs = list(zip(s.targets[0].elts, s.value.elts))
+        else:
+            pairs = [(s.targets[0], s.value)]
+        vals = []
+        for _t, v in pairs:
+            vt, ridx = norm(v), idx - 0.5 if len(pairs) > 1 else idx
+            if isinstance(v, ast.Name) and v.id in reads:
+                vt, ridx = reads[v.id]
+            vals.append((vt, ridx))
+        for (t_, _v), (vt, ridx) in zip(pairs, vals):
+            tt = norm(t_)
+            if isinstance(t_, ast.Name):
+                reads[tt] = (vt, ridx)
+            elif tt.startswith("self.") and vt in ("sys.exit", "sys.excepthook"):
+                saves.setdefault(vt, (s, ridx, tt))
+            elif tt in ("sys.exit", "sys.excepthook") and vt.startswith("self."):
+                insts.setdefault(tt, (s, idx, vt))
     for hook in ("sys.exit", "sys.excepthook"):
         save = [saves[hook][0]] if hook in saves else []
         inst = [insts[hook][0]] if hook in insts else []
         where = init.loc()
         if save and inst and saves[hook][1] < insts[hook][1]:
-            saved_as = norm(save[0].targets[0])
+            saved_as = saves[hook][2]
             meth = insts[hook][2].split(".", 1)[1]
             hooks[hook] = (saved_as, meth)
             r1.ok(init.loc(inst[0]), init.fq, "%s saved as %s, replaced by self.%s" % (hook, saved_as, meth))
